@@ -94,12 +94,25 @@ def work(chunk):
     cfgs = {}
     nexec = 0
     errors = []
+    minfo = []
     for pi, (name, prog, cfglist) in enumerate(chunk, 1):
         P = programs.to_tla(prog)
         ptla.append(P)
         for ci, cfg in enumerate(cfglist):
             try:
-                if cfg['policy'][0] == 'eager_enum':
+                if cfg['policy'][0] == 'model':
+                    from harness import replay
+                    r = replay.replay_graph(prog, max_paths=cfg['policy'][1], collect=True)
+                    minfo.append({'prog': name, 'states': r['states'], 'transitions': r['transitions'], 'replayed': r['replayed'],
+                                  'walks': r['paths'], 'drift': r['divergence'], 'invariants_violated': r['model_invariants_violated']})
+                    for k, tr in enumerate(r['traces']):
+                        tid = '%s|m%d.%d' % (name, ci, k)
+                        c2 = dict(cfg)
+                        c2['policy'] = ['script', tr['schedule']]
+                        cfgs[tid] = c2
+                        traces.append(tlc.make_trace(tid, pi, tr['lines'], amb=P['amb']))
+                        nexec += 1
+                elif cfg['policy'][0] == 'eager_enum':
                     n = 0
                     for ex in driver.enumerate_eager(
                             prog, limit=cfg['policy'][1],
@@ -126,7 +139,7 @@ def work(chunk):
                 errors.append('%s cfg %d: %s' % (name, ci, traceback.format_exc()[-1500:]))
     verdicts, stats = tlc.validate_batch(ptla, traces)
     out = {'n': nexec, 'stats': stats, 'errors': errors, 'viol': [], 'samples': [], 'clean': 0,
-           'sigs': set()}
+           'sigs': set(), 'model': minfo}
     byid = {t['id']: t for t in traces}
     for tid, v in verdicts.items():
         t = byid[tid]
@@ -266,6 +279,29 @@ def build_jobs(pid, tier, seed):
             cfgs = base_cfgs(seed, 8 if quick else 60, 20 if quick else 300)
             cfgs += offset_cfgs(p, 64 if quick else 800, seed)
         jobs.append((p['name'], p, cfgs))
+    sizes = {}
+    try:
+        with open(os.path.join(ROOT, 'spec', 'instance_sizes.json')) as f:
+            sizes = json.load(f)
+    except OSError:
+        pass
+    if pid not in ('C13',):
+        # model-guided: TLC explores spec/Engine.tla for the instance exhaustively; every transition of the model's
+        # state graph is replayed on the real engine (conformance) and the walks are validated at level O
+        budget = 4000 if quick else 10 ** 9
+        cap = 400 if quick else 60000
+        chosen = []
+        for name, p, cfgs in sorted(jobs, key=lambda j: sizes.get(j[0], 10 ** 9)):
+            sz = sizes.get(name)
+            if sz is None or sz > cap or programs.is_ambiguous(p) or any(r.get('recseq') for r in p['runs']):
+                continue
+            if budget - sz < 0:
+                break
+            budget -= sz
+            chosen.append(name)
+        for j in jobs:
+            if j[0] in chosen:
+                j[2].append(dict(policy=['model', 400 if quick else 100000]))
     for p in random_programs(pid, tier, seed):
         if pid == 'C13':
             cfgs = cancel_cfgs(seed, 1 if quick else 3, 60, 4 if quick else 1) + base_cfgs(seed, 2, 0)
@@ -308,7 +344,7 @@ def chunks(jobs, n):
     for j in jobs:
         i = load.index(min(load))
         out[i].append(j)
-        load[i] += sum(c['policy'][1] if c['policy'][0] == 'eager_enum' else 1 for c in j[2])
+        load[i] += sum(c['policy'][1] if c['policy'][0] == 'eager_enum' else (400 if c['policy'][0] == 'model' else 1) for c in j[2])
     out = [sorted(c, key=lambda j: j[0]) for c in out if c]
     return out
 
@@ -367,13 +403,24 @@ def run_runtime(pid, tier, seed):
             print('HARNESS-ERROR: ' + e.replace('\n', ' | ')[-600:])
         rc = 2 if rc == 0 else rc
     samples = [s for r in results for s in r['samples']][:3]
+    minfo = [m for r in results for m in r.get('model', [])]
+    drift = [m for m in minfo if m['drift']]
+    for m in drift[:6]:
+        print('MODEL-DRIFT instance=%s step=%s diff=%s' % (m['prog'], m['drift'].get('step'),
+              json.dumps(m['drift'].get('diff (model, real)', m['drift']))[:300]))
     evidence = {
         'property_id': pid, 'tier': tier, 'seed': seed, 'level': 'model_checking',
         'coverage': {
-            'states': max(states, 1), 'transitions': max(gen, 1),
+            'states': max(states + sum(m['states'] for m in minfo), 1), 'transitions': max(gen + sum(m['transitions'] for m in minfo), 1),
             'traces_validated_against_impl': total,
             'samples': samples,
             'programs': len(jobs),
+            'engine_model': {'instances': len(minfo), 'states': sum(m['states'] for m in minfo),
+                             'transitions': sum(m['transitions'] for m in minfo),
+                             'model_transitions_replayed_on_code': sum(m['replayed'] for m in minfo),
+                             'walks': sum(m['walks'] for m in minfo),
+                             'drift_instances': [m['prog'] for m in drift],
+                             'model_invariants_violated': {m['prog']: m['invariants_violated'] for m in minfo if m['invariants_violated']}},
             'distinct_trace_signatures': sigs,
             'clauses_of_other_properties_seen': other_props,
             'known_findings_reobserved': sorted('%s: %s' % (c, w) for (c, w) in known_hits),
@@ -389,8 +436,10 @@ def run_runtime(pid, tier, seed):
     os.makedirs(os.path.join(ROOT, 'evidence'), exist_ok=True)
     with open(os.path.join(ROOT, 'evidence', pid + '.json'), 'w') as f:
         json.dump(evidence, f, indent=1)
-    print('%s %s: %d executions of %d programs validated by TLC (%d states), %d new violation(s), %d known finding(s), %.1fs'
-          % (pid, tier, total, len(jobs), states, len(reported), len(known_hits), time.time() - t0))
+    print('%s %s: %d executions of %d programs validated by TLC (%d states), %d new violation(s), %d known finding(s); '
+          'Engine.tla: %d instances, %d states, %d/%d transitions replayed on the code, %d drifted; %.1fs'
+          % (pid, tier, total, len(jobs), states, len(reported), len(known_hits), len(minfo), sum(m['states'] for m in minfo),
+             sum(m['replayed'] for m in minfo), sum(m['transitions'] for m in minfo), len(drift), time.time() - t0))
     return rc
 
 
